@@ -4,7 +4,7 @@
 
       run <fuel> <sexp>          -> Res.show (run P fuel)
       rw <name> <fuel> <sexp>    -> Res.show (run (R P) fuel)  for the Lean-defined rewrite R
-                                     (deadcode | iffalse | noop | blockwrap | exprvoid), "changed=0|1" appended
+                                     (deadcode | iffalse | noop | blockwrap | exprvoid | exprcomma), "changed=0|1" appended
 
   Parsing is IO glue (partial defs); it is not part of any theorem.
 -/
@@ -13,6 +13,7 @@ import GojaModel.C02.Model
 import GojaModel.C02.Rewrites
 import GojaModel.C02.Wrap
 import GojaModel.C02.Erase
+import GojaModel.C02.Comma
 
 namespace GojaModel.C02.Driver
 open GojaModel.C02
@@ -214,7 +215,11 @@ def handle (line : String) : String :=
   else if cmd == "rw" then
     let (name, rest2) := splitWord rest
     let (fuel, src) := splitWord rest2
-    if name == "exprvoid" then
+    if name == "exprcomma" then
+      match fuel.toNat?, parseProg src with
+      | some n, some P => (run (exprStmtComma P) (2 * n)).show ++ " | changed=1"
+      | _, _ => "parse-error"
+    else if name == "exprvoid" then
       -- depth-changing rewrite (theorem expr_stmt_void_ge): doubled fuel
       match fuel.toNat?, parseProg src with
       | some n, some P => (run (exprStmtVoid P) (2 * n)).show ++ " | changed=1"
